@@ -40,7 +40,11 @@ claim('C17', 'condvar typestate exploration with boolean-flag refinement + who-m
       'Partial: waits sit in a loop that re-reads DebugState and branches only on state read after waking; every resume path reaches notify_all (path-sensitive on the notify flag); deferred writes are drained only at cycle boundaries and never from statement execution; the hook precedes dispatch with stmt.location() and ctx.call_depth; hook object, Runtime.debug and call_depth are restored on every path; into/over/out comparison direction and out = depth-1; one emit_stop per pause; adapter stop loop must emit/resume (known finding F23). Interleavings and watch-expression side effects are not decided.',
       _TB, 'DESIGN.md section 4 / C17')
 
+claim('C14', 'unit-discipline provenance rules on Position/SemanticToken construction + column-accumulator rule + paired-write/lock-region dominance rules',
+      'Partial: every column accumulator advances by char::len_utf16 and no Position.character or token length derives from a byte offset or char count (UTF-16 contract); Document.content and the analysed text are written together under one lock region only by the three sync functions, with is_open re-checked inside the region; incremental changes are applied only at resolved positions behind the end <= len guard and did_change stores the applied text. The change-sequence semantics and char-boundary safety of slices are not decided.',
+      _TB, 'DESIGN.md section 4 / C14')
+
 _PENDING = 'check not built yet in this commit (work in progress; see DESIGN.md section 10 for the build order)'
-for _p in ['C02','C03','C04','C05','C06','C09','C12','C13','C14','C16']:
+for _p in ['C02','C03','C04','C05','C06','C09','C12','C13','C16']:
     na(_p, _PENDING)
 na('C15', 'formatting token-sequence preservation and idempotence are equalities between values computed by string manipulation; no shape-of-code fact is a necessary condition that a realistic breaking edit would violate (DESIGN.md section 5)')
